@@ -1425,7 +1425,13 @@ struct TemplateCore {
                 } else if (evaluate(right, next_expr, expr->Operation) &&
                            evaluateExpression(left, right, expr->Operation)) {
                     expr = next_expr;
-                    continue;
+
+                    if (previous_oper < expr->Operation) {
+                        continue;
+                    }
+
+                    // The next operation binds weaker than the one this level was entered for: it belongs to the caller.
+                    return true;
                 }
 
                 return false;
